@@ -90,7 +90,38 @@ BaseCase == {[files |-> SetToSeq({FileRec(m, Cat(GoodFiles[m]), "") : m \in DOMA
                         [op |-> "EvalFile", name |-> "ghost", data |-> <<>>, expect |-> [kind |-> "any"]]>>,
               tags |-> <<"c18base">>]}
 
-Cases == CASE Family = "c18names" -> NameCases(Singles, Spellings, Exts)
+(* ------------------------------- C13 in trees ------------------------------- *)
+\* a load-time fault is reported with the absolute path of the file that contains the construct and its line; a
+\* run-time fault in the page itself with the page's path and line.  Files are line sequences; the fault sits on line fl.
+RECURSIVE Lines(_)
+Lines(ls) == IF ls = <<>> THEN "" ELSE ls[1] \o (IF Len(ls) = 1 THEN "" ELSE "\n" \o Lines(Tail(ls)))
+Pad(n) == [i \in 1..n |-> IF i % 2 = 0 THEN "{{-- c" \o ToString(i) \o " --}}" ELSE "text " \o ToString(i)]
+LayLines(n, fault) == Pad(n) \o <<fault>> \o <<"<h>@reserve(\"title\")</h>", "@reserve(\"content\")">>
+PageLines(n, fault) == <<"@use(\"~main\")">> \o Pad(n) \o <<"@insert(\"title\", \"T\")", "@insert(\"content\")", "body", fault, "@end">>
+CompLines(n, fault) == Pad(n) \o <<fault, "[{{ n }}]">>
+ParseFaults == {"{{ 1 + }}", "{{ 1 ~ 2 }}", "@each(x on y)z@end", "{{ (1 }}"}   \* (an unterminated string or comment is one token up to the end of the file: its line is the last line)
+RunFaults == {"{{ zz }}", "{{ 1 / 0 }}", "{{ \"s\".nope() }}", "{{ 1 + \"a\" }}"}
+GoodLay == <<"<h>@reserve(\"title\")</h>", "@reserve(\"content\")">>
+GoodComp == <<"[{{ n }}]">>
+PathCase(files, load, ops, tag) == [files |-> files, cfg |-> [dir |-> "t", ext |-> ".tw"], load |-> load, ops |-> ops, tags |-> <<"c13tree", tag>>]
+TreeFaults ==
+     {PathCase(<<FileRec("layouts/main", Lines(LayLines(n, f)), ""), FileRec("home", Lines(PageLines(1, "ok")), "")>>,
+               [ok |-> FALSE, mentions |-> <<"layouts/main">>, file |-> "layouts/main", line |-> n + 1], <<>>, "layout-parse") : n \in 0..3, f \in ParseFaults}
+\cup {PathCase(<<FileRec("layouts/main", Lines(GoodLay), ""), FileRec("home", Lines(PageLines(n, f)), "")>>,
+               [ok |-> FALSE, mentions |-> <<"home">>, file |-> "home", line |-> n + 5], <<>>, "page-parse") : n \in 0..3, f \in ParseFaults}
+\cup {PathCase(<<FileRec("components/c", Lines(CompLines(n, f)), ""), FileRec("home", "x\n@component(\"~c\", {n: 1})", "")>>,
+               [ok |-> FALSE, mentions |-> <<"components/c">>, file |-> "components/c", line |-> n + 1], <<>>, "component-parse") : n \in 0..3, f \in ParseFaults}
+\cup {PathCase(<<FileRec("layouts/main", Lines(GoodLay), ""), FileRec("home", Lines(PageLines(n, f)), "")>>,
+               [ok |-> TRUE, names |-> <<"home">>],
+               <<[op |-> "String", name |-> "home", data |-> <<>>, expect |-> [kind |-> "err", why |-> "fault", line |-> n + 5], path |-> "home"]>>, "page-runtime") :
+        n \in 0..3, f \in RunFaults}
+\cup {PathCase(<<FileRec("layouts/main", Lines(GoodLay), ""), FileRec("home", Lines(<<"@use(\"~main\")">> \o Pad(n) \o <<"@insert(\"nope\", 1)", "@insert(\"title\", 2)">>), "")>>,
+               [ok |-> FALSE, mentions |-> <<"home">>, file |-> "home", line |-> n + 2], <<>>, "undefined-insert") : n \in 0..3}
+\cup {PathCase(<<FileRec("home", Lines(Pad(n) \o <<"@component(\"~ghost\")">>), "")>>,
+               [ok |-> FALSE, mentions |-> <<"home", "components/ghost">>, file |-> "home", line |-> n + 1], <<>>, "unknown-component") : n \in 0..3}
+
+Cases == CASE Family = "c13tree" -> TreeFaults
+           [] Family = "c18names" -> NameCases(Singles, Spellings, Exts)
            [] Family = "c18namesall" -> NameCases(Singles \cup Pairs, Spellings, Exts)
            [] Family = "c18faults" -> FaultCases \cup TruncCases \cup BaseCase
 
